@@ -1,6 +1,10 @@
 import T4V.Proofs.Expand
 import T4V.Text.DataCard
 import T4V.Spec.Comp
+import T4V.Model.Macro
+import T4V.Model.TRCard
+import T4V.Model.Keywords
+import T4V.Model.Lattice
 /-!
 # Property C17 — unsupported or malformed input stops the run (decision logic, stated outright)
 
@@ -8,9 +12,10 @@ Each theorem says: *whenever the input has the fault, the modelled stage returns
 every deck around it*.  The modelled stages are the ones the property lists whose logic lives in
 pure functions: facet range check (`pot_expand_surfs`), FILL-array length (`expand_data_card` with
 `expected`), IMP cards of unequal length (`parse_importance_cards`), mixed-sign material fractions
-(`compositionConversionMCNPToT4`).  The remaining fault classes (m = -1, --lattice syntax, lattice
-dimensionality, parameter counts, unknown mnemonic) are raised by code that is tied to the check by
-fault injection only (see evidence, `not_proved`).
+(`compositionConversionMCNPToT4`), parameter counts and unknown mnemonics (`normalize_surface`), m = −1
+(`normalize_transform`), lattice dimensionality (`develop_lattice`), keywords without value and LAT values
+(`parse_keywords`).  `--lattice` option syntax and macrobody parameter counts are tied to the check by fault
+injection only (see evidence, `not_proved`).
 -/
 namespace T4V.C17
 open T4V
@@ -92,5 +97,73 @@ example : potExpand [(7, [1, -2, 3])] (.msurf 7 (some 4)) 10 = .error (.badFacet
   facet_beyond_rejected [(7, [1, -2, 3])] 7 4 10 [1, -2, 3] rfl (by decide)
 example : importanceCards [[some 1, some 0], [some 1]] = .error "unequal" :=
   imp_cards_unequal_rejected _ _ (by simp) ⟨[some 1], by simp, by simp⟩
+
+set_option linter.unusedSimpArgs false
+
+section
+variable {α : Type} [Add α] [Sub α] [Mul α] [Div α] [Neg α] [OfNat α 0] [OfNat α 1]
+  [LT α] [DecidableLT α] [BEq α] [Transc α]
+
+/-- **wrong parameter count / unknown mnemonic**: a surface card is converted only if its mnemonic is in the
+table `N_PARAMS` and the number of entries is one the table allows — whatever the values -/
+theorem surface_card_arity (e1 e2 : α) (mn : String) (ps : List α) (h : (cadOf e1 e2 mn ps).isSome = true) :
+    ∃ ns, surfaceArity mn = some ns ∧ ps.length ∈ ns := by
+  unfold cadOf at h
+  cases hs : surfaceArity mn with
+  | none => simp [hs] at h
+  | some ns =>
+    simp only [hs] at h
+    by_cases hc : ns.contains ps.length = true
+    · exact ⟨ns, rfl, by simpa using hc⟩
+    · rw [if_neg hc] at h; simp at h
+
+theorem unknown_mnemonic_rejected (e1 e2 : α) (mn : String) (ps : List α) (h : surfaceArity mn = none) :
+    cadOf e1 e2 mn ps = none := by
+  simp [cadOf, h]
+
+/-- a TR card / inline transformation with a 13th entry other than 1 (m = −1) is rejected -/
+theorem tr_m_not_one_rejected (snap : α) (tr : List (Option α)) (m : α) (h12 : tr.length = 12)
+    (hm : (m == 1) = false) : normTransform snap (tr ++ [some m]) = .error .mMinusOne := by
+  have hlen : (tr ++ [some m]).length = 13 := by simp [h12]
+  simp [normTransform, hlen, hm]
+
+/-- a lattice whose number of non-trivial FILL ranges differs from the number of lattice vectors (`--lattice` or
+FILL array of the wrong dimensionality) is rejected -/
+theorem lattice_dimension_mismatch_rejected (base : List (V3 α)) (bounds : List (Int × Int)) (spec : List Nat)
+    (univ : Nat) (filltr trcl : Option (List α)) (h1 : base.length ≠ bounds.length) (h2 : base.length ≠ latDims bounds) :
+    developLattice base bounds spec univ filltr trcl = .error .dims := by
+  have e1 : (base.length != bounds.length) = true := by simpa using h1
+  have e2 : (base.length != latDims bounds) = true := by simpa using h2
+  simp [developLattice, e1, e2]
+end
+
+/-- a keyword at the end of the cell options without its value (`U`, `MAT`, `RHO`, `LAT`, `IMP:…`, `FILL`) stops
+the run -/
+theorem keyword_without_value_rejected (toks : List String) (st : KwState × List Item)
+    (h : kwRun (.idle, []) toks = .ok st)
+    (hw : st.1 = .wantU ∨ st.1 = .wantMat ∨ st.1 = .wantRho ∨ st.1 = .wantLat ∨ (∃ ps, st.1 = .wantImp ps) ∨
+      (∃ s, st.1 = .fillFirst s)) :
+    parseKeywords toks = .error .pop := by
+  obtain ⟨s, acc⟩ := st
+  simp only [parseKeywords, groupTokens, h]
+  rcases hw with h' | h' | h' | h' | ⟨ps, h'⟩ | ⟨b, h'⟩ <;> simp only at h' <;> subst h' <;> simp [kwFinish, Except.map]
+
+/-- `LAT=n` with `n` other than 1 or 2 stops the run, whatever follows -/
+theorem lat_value_rejected (pre rest : List String) (acc : List Item) (v : String)
+    (hpre : kwRun (.idle, []) pre = .ok (.wantLat, acc))
+    (hv : (v.toInt? == some 1 || v.toInt? == some 2) = false) :
+    parseKeywords (pre ++ v :: rest) = .error .badLat := by
+  have hrun : ∀ (a b : List String) (st : KwState × List Item),
+      kwRun st (a ++ b) = match kwRun st a with | .ok st' => kwRun st' b | .error e => .error e := by
+    intro a
+    induction a with
+    | nil => intro b st; simp [kwRun]
+    | cons t a ih =>
+      intro b st
+      simp only [List.cons_append, kwRun]
+      cases h : kwStep st t with
+      | error e => rfl
+      | ok st' => exact ih b st'
+  simp [parseKeywords, groupTokens, hrun, hpre, kwRun, kwStep, hv, Except.map]
 
 end T4V.C17
